@@ -25,7 +25,8 @@ ASSUMPTIONS = [
 TECHNIQUE = "exhaustive enumeration of all row permutations of every list of small real charts through every listed operation; differential oracle f(chart) == f(permuted chart) on denotations"
 LEVEL_TEXT = (
     "Charts of osu, Quaver, StepMania, BMS, O2Jam with 3 hits, 2 holds, 3 tempo points (and 2 SVs, a sample event): all 3!*2!*3!(*2!) = "
-    "72/144 row permutations of the lists, each with permuted labels and with fresh labels, through write (osu, Quaver, StepMania, BMS; "
+    "72/144 row permutations of the lists (thorough: also a second shape with a chord, 4 hits, 3 holds, 2 tempo points, 3 SVs: "
+    "288/1728 permutations), each with permuted labels and with fresh labels, through write (osu, Quaver, StepMania, BMS; "
     "re-read), every converter, rate, full_ln, hitsound_copy (permuted source and permuted target), dominant_bpm, scroll_speed and "
     "sv_normalize; every result compared as a multiset / step function with the result for the unpermuted chart."
 )
